@@ -187,13 +187,13 @@ def run(out: Outcome) -> None:
                 runners.append(r)
         # LARGE warm-ups (beyond 2^11 instances): the same "alarm as early as possible" traces; nothing may be flagged before the configured count,
         # and the flags must come once it is reached
-        for _ in range(2 if thorough else 1):
+        for rep_lw in range(2 if (thorough or cls == "KSWIN") else 1):
             mn = rng.randint(2100, 2600)
             p = gen.rand_params(rng, cls)
             key = "min_num_misclassified_instances" if cls == "EDDM" else "min_num_instances"
             p[key] = mn
             if cls == "KSWIN":
-                p = {"alpha": 0.5, "min_num_instances": mn, "num_test_instances": rng.choice([1, 40])}
+                p = {"alpha": 0.5, "min_num_instances": mn, "num_test_instances": (1, 40)[rep_lw % 2]}      # both test-sample sizes in every run
             if cls == "RDDM":
                 p = {**p, "min_concept_size": 7000, "max_concept_size": 40000, "max_num_instances_warning": 1400}
             n = 260
